@@ -99,9 +99,9 @@ def run(tier, seed):
     if tier == "quick":
         # the exported Histogram10 (the crate's own instantiation): find/add against the bin contract as well
         obs += hist_job("C06", [10], NAMES[:1], unwind=14, timeout=900, harness_timeout=600).run()
+    # the const-generic copy (feature nightly) is a second implementation of the same contract: both tiers (seconds)
+    obs += hist_const_job("C06", [1, 3], NAMES, unwind=8).run()
     if tier == "thorough":
-        j2 = hist_const_job("C06", [1, 3], NAMES, unwind=8)
-        obs += j2.run()
         # LEN = 100 does not terminate within 2700 s in CBMC (LEN = 40 needs ~12 min): the largest complete proof is LEN = 40,
         # LEN = 100 stays with the bounded linear-scan corpus
         j3 = hist_job("C06", [40], [NAMES[0]], unwind=44, timeout=2700, harness_timeout=2400)
@@ -123,7 +123,7 @@ def run(tier, seed):
             "counts below 2^40 (no u64 overflow)",
             "A-CBMC: CBMC's model of f64 comparison and Kani's compilation of core's binary search",
             "total == number of successful adds for every add sequence follows from add.count_frame_total by induction on the sequence (each step +1 / +0)",
-            "histogram_const.rs (feature nightly) is covered in the thorough tier only",
+            "histogram_const.rs (feature nightly): LEN in {1, 3}, both tiers",
         ],
         "explanation": "Per LEN, loop bounds are the macro parameter; unwinding assertions prove the unwind bound sufficient, so each harness is a complete proof for that LEN.",
     })
